@@ -40,6 +40,7 @@ class GeminiClientProtocol(asyncio.Protocol):
         url: str,
         response_future: asyncio.Future,
         send_on_connect: bool = True,
+        decode_text: bool = True,
     ):
         """Initialize the client protocol.
 
@@ -50,10 +51,15 @@ class GeminiClientProtocol(asyncio.Protocol):
                 the connection is established. If False, nothing is sent until
                 send_request() is called - used by GeminiClient to verify the
                 peer's certificate (TOFU) before any request data leaves.
+            decode_text: If True (default), text/* bodies are decoded to str
+                using the declared charset. If False, every body is delivered
+                as the raw bytes received (used by the reverse proxy, which
+                must relay responses unchanged).
         """
         self.url = url
         self.response_future = response_future
         self.send_on_connect = send_on_connect
+        self.decode_text = decode_text
         self.request_sent = False
         self.transport: asyncio.Transport | None = None
         self.buffer = b""
@@ -186,7 +192,7 @@ class GeminiClientProtocol(asyncio.Protocol):
             mime_type = (self.meta or "").split(";")[0].strip().lower()
             is_text = mime_type.startswith("text/") or mime_type == ""
 
-            if is_text:
+            if is_text and self.decode_text:
                 # Get charset from meta if specified, default to utf-8
                 charset = "utf-8"
                 # Parse charset from meta (e.g., "text/gemini; charset=iso-8859-1")
@@ -282,6 +288,7 @@ class TitanClientProtocol(asyncio.Protocol):
         content: bytes,
         response_future: asyncio.Future,
         send_on_connect: bool = True,
+        decode_text: bool = True,
     ):
         """Initialize the Titan client protocol.
 
@@ -292,11 +299,14 @@ class TitanClientProtocol(asyncio.Protocol):
             send_on_connect: If True (default), the request is sent as soon as
                 the connection is established. If False, nothing is sent until
                 send_request() is called (see GeminiClientProtocol).
+            decode_text: If False, text bodies are delivered as raw bytes
+                instead of being decoded (see GeminiClientProtocol).
         """
         self.titan_url = titan_url
         self.content = content
         self.response_future = response_future
         self.send_on_connect = send_on_connect
+        self.decode_text = decode_text
         self.request_sent = False
         self.transport: asyncio.Transport | None = None
         self.buffer = b""
@@ -422,7 +432,7 @@ class TitanClientProtocol(asyncio.Protocol):
             mime_type = (self.meta or "").split(";")[0].strip().lower()
             is_text = mime_type.startswith("text/") or mime_type == ""
 
-            if is_text:
+            if is_text and self.decode_text:
                 charset = "utf-8"
                 if "charset=" in (self.meta or "").lower():
                     for part in (self.meta or "").split(";"):
